@@ -233,6 +233,53 @@ def gen_annotation_text(rng, infos, ctx):
     return rng.choice(["[1]", '"x"', "5"])
 
 
+def daemon_phase(ctx, rng, n):
+    """the whole path through the REAL daemon: the pod object is read from an API server stand-in with the two read paths of
+    kube-apiserver (consistent read; watch-cache read for resourceVersion=0, which here still shows an EARLIER version of the pod
+    with other IPs), galaxy resolves the networks, passes the arguments, executes the plugin binary of every network; the
+    plugin's CNI_ARGS must carry exactly the IPs galaxy-ipam allocated and persisted in the pod's current annotation"""
+    if not ctx.build_harness("ghcni") or not ctx.build_harness("fakecni"):
+        return
+    cases, want = [], []
+    for i in range(n):
+        infos = gen_infos(rng, ctx)
+        old = gen_infos(rng, ctx)
+        nets = rng.choice([1, 1, 2, 3])
+        conf = {"NetworkConf": [{"name": "net%d" % j, "type": "fakecni"} for j in range(nets)], "DefaultNetworks": ["net%d" % j for j in range(nets)]}
+        ann = {"k8s.v1.cni.galaxy.io/args": '{"common":{"ipinfos":%s}}' % enc_py(infos)}
+        stale = rng.choice([{}, {"k8s.v1.cni.galaxy.io/args": '{"common":{"ipinfos":%s}}' % enc_py(old)}])
+        cases.append({"conf": conf, "confdir": [], "pods": [{"name": "pod0", "ns": "ns", "annotations": ann, "cached_annotations": stale, "eni": False}],
+                      "steps": [{"reqs": [{"cmd": "ADD", "cid": "cid0", "pod": "pod0", "ifname": "eth0",
+                                           "args": "IgnoreUnknown=1;K8S_POD_NAMESPACE=ns;K8S_POD_NAME=pod0;K8S_POD_INFRA_CONTAINER_ID=cid0",
+                                           "fail_add": [], "fail_del": []}]}]})
+        want.append((infos, nets))
+        ctx.dist("daemon:nets-%d" % nets)
+        ctx.dist("daemon:cached-version-" + ("before-binding" if not stale else "earlier-ips"))
+    obs = ctx.harness("cni", cases, cmd="ghcni", shards=16)
+    if obs is None:
+        return
+    for c, o, (infos, nets) in zip(cases, obs, want):
+        ctx.count({"daemon": c["pods"][0]["annotations"], "nets": nets})
+        if o is None or o.get("res") != "ok":
+            ctx.violation("correspondence", "the daemon case did not run: %s" % str(o)[:300], {"case": c}, found=False, theorem="C13 daemon path")
+            continue
+        log = [l for st in o["steps"] for l in st["log"] if l.get("cmd") == "ADD"]
+        got = []
+        for l in log:
+            kv = dict(p.split("=", 1) for p in l.get("args", "").split(";") if "=" in p)
+            try:
+                got.append(json.loads(kv.get("ipinfos", "null")))
+            except ValueError:
+                got.append("unparsable")
+        exp = json.loads(enc_py(infos))
+        ok = len(log) == nets and all(g == exp for g in got)
+        if not ok:
+            ctx.violation("monitor", "the IPs the plugins receive through the real daemon are not the IPs galaxy-ipam persisted in the pod's "
+                          "current annotation (ipinfos_end_to_end on the daemon path)",
+                          {"case": c, "plugin_args": [l.get("args") for l in log], "expected_ipinfos": exp,
+                           "cache_reads_by_the_daemon": o.get("cache_reads")}, found=True, theorem="ipinfos_end_to_end")
+
+
 def run(ctx):
     rng = ctx.rng
     n_enc = 500 if ctx.quick else 5000
@@ -252,7 +299,8 @@ def run(ctx):
         "the API server stores the annotation string unchanged (it is an opaque string value of the pod object)",
         "libcni's invoke passes Args to the plugin process as the CNI_ARGS environment variable unchanged (exercised for real: the "
         "harness plugin binary is executed by cniutil.CmdAdd)"]
-    ctx.assumptions += ["the annotation that reaches the daemon is the one Bind wrote (json.Marshal of constant.CniArgs)",
+    ctx.assumptions += ["the annotation Bind wrote is the pod's current annotation (json.Marshal of constant.CniArgs); that the DAEMON reads "
+                        "the current one is checked on the real daemon against an API stand-in whose cache lags (daemon_phase)",
                         "address < 2^32, prefix length <= 32, VLAN < 2^16 (the Go types' ranges)"]
     ctx.theorems("C13", THEOREMS, REFUTED, deps=DEPS)
     if not ctx.build_harness("ghkeyscni"):
@@ -296,6 +344,7 @@ def run(ctx):
     obs = ctx.harness("ipinfo", cases, cmd="ghkeys", env=env, shards=16)
     if obs is None:
         return
+    daemon_phase(ctx, rng, 40 if ctx.quick else 400)
     corr, idx_corr, mons, mon_info = [], [], [], []
     for i, (c, o) in enumerate(zip(cases, obs)):
         ctx.count(c)
